@@ -41,7 +41,7 @@ def run(rep, tier, driver):
         for ring in ("p", "f"):
             if c.upper() in rows[ring]:
                 nm = c + ring
-                names += [nm, nm + " a", nm + " b", "D-" + nm, "L-" + nm]
+                names += [nm, nm + " a", nm + " b", "D-" + nm, "L-" + nm, "D-" + nm + " a", "D-" + nm + " b", "L-" + nm + " a", "L-" + nm + " b"]
         if c.upper() + "-OL" in rows["o"]:
             names += [c + "-ol", "D-" + c + "-ol", "L-" + c + "-ol"]
         names.append(c)
@@ -98,6 +98,20 @@ def run(rep, tier, driver):
                                   key="mirror:" + nm)
                 if mir == cu:
                     rep.count("achiral-or-meso entry")
+                # the same for the declared anomers: the series prefix acts on the a and b entries as on the anomer-less one
+                for an, x in (("a", a), ("b", b)):
+                    if not x:
+                        continue
+                    xo, xp = smi.get(own + nm + " " + an), smi.get(opp + nm + " " + an)
+                    rep.case(canon=[nm, "series", an], nontrivial=True)
+                    cx = chem.canon(x)
+                    if not xo or chem.canon(xo) != cx:
+                        rep.violation("table-row", {"iupac": own + nm + " " + an, "clause": "own series (anomer)"}, {"result": chem.canon(xo) if xo else xo}, {"result": cx},
+                                      key="own-series:%s %s" % (nm, an))
+                    mx = chem.mirror(x)
+                    if not xp or chem.canon(xp) != mx:
+                        rep.violation("table-row", {"iupac": opp + nm + " " + an, "clause": "opposite series (anomer)"}, {"result": chem.canon(xp) if xp else xp},
+                                      {"result": mx, "note": "mirror image"}, key="mirror:%s %s" % (nm, an))
             # ring size and class formula
             m = chem.mol(u)
             ringatoms = chem.main_ring(m, prefer_size=6 if ring == "p" else 5)
